@@ -7,7 +7,7 @@ use serde_json::json;
 
 use crate::{ToolInvocation, ToolOutput};
 
-use super::{parse_args, truncate_utf8, BuiltinToolConfig};
+use super::{incomplete_utf8_tail, parse_args, truncate_utf8, BuiltinToolConfig};
 
 #[derive(Deserialize)]
 struct ArtifactFetchArgs {
@@ -57,8 +57,16 @@ pub(super) fn run_artifact_fetch(
     };
     buf.truncate(read_bytes);
 
+    let more_follows = (offset + read_bytes as u64) < total_bytes;
+    if more_follows {
+        // a page must not end inside a character: the next page starts with the rest of it
+        let tail = incomplete_utf8_tail(&buf);
+        if tail < buf.len() {
+            buf.truncate(buf.len() - tail);
+        }
+    }
     let (content, utf8_truncated, used_bytes) = truncate_utf8(&buf, max_bytes);
-    let truncated = utf8_truncated || (offset + read_bytes as u64) < total_bytes;
+    let truncated = utf8_truncated || more_follows;
 
     ToolOutput {
         stdout: vec![content],
